@@ -227,3 +227,35 @@ func (c *Ctx) ResultOnlyUnder(rule, what string, fn *FuncInfo, idx int, val bool
 	}
 	return n
 }
+
+// ResultOnlyUnderF is ResultOnlyUnder with the licence given as a formula built from the
+// function's own syntax (so it may mention variables that are not in scope at the return, such
+// as the locals of an expanded helper).
+func (c *Ctx) ResultOnlyUnderF(rule, what string, fn *FuncInfo, idx int, val bool, desc string, build func(e *FactEngine) *Formula) int {
+	info := fn.Info()
+	n := 0
+	for _, r := range returnsOf(fn) {
+		if idx >= len(r.Results) {
+			c.Undec(rule, what, c.P.Pos(r), fn.Key(), "", "bare return: result not visible")
+			continue
+		}
+		x := r.Results[idx]
+		if tv := info.Types[x]; tv.Value != nil {
+			if constant.BoolVal(tv.Value) != val {
+				continue
+			}
+			n++
+			c.RequireF(rule, what, fn, r, desc, func(e *FactEngine) (*Formula, error) { return build(e), nil })
+			continue
+		}
+		n++
+		c.RequireF(rule, what, fn, r, "("+exprString(x)+fmt.Sprintf(" == %v", val)+") ⇒ "+desc, func(e *FactEngine) (*Formula, error) {
+			res := e.Cond(x)
+			if !val {
+				res = mkNot(res)
+			}
+			return mkOr(mkNot(res), build(e)), nil
+		})
+	}
+	return n
+}
